@@ -39,10 +39,16 @@ pub struct Violation {
     pub class: String,
     pub detail: String,
     pub at_op: usize,
+    /// Specific descriptor of what differs (diagnostic `file:code` items / functions whose
+    /// `withdraw_gas` count differs), used to match listed findings.
+    pub items: String,
 }
+
+static KNOWN: std::sync::OnceLock<KnownFindings> = std::sync::OnceLock::new();
 
 #[derive(Default)]
 pub struct RunStats {
+    pub known_hits: BTreeSet<String>,
     pub counters: Counters,
     pub transitions: BTreeSet<String>,
     pub checks: u64,
@@ -260,11 +266,19 @@ pub fn run_history(project: &Project, ops: &[Op], scratch: &Path, use_memo: bool
                             } else {
                                 "locations-differ"
                             };
-                            Some(Violation { class: which.into(), detail: a.first_difference(b), at_op: i })
+                            let items = if a.diagnostics != b.diagnostics {
+                                dbx::diag_diff_items(&a.diagnostics, &b.diagnostics).join(",")
+                            } else if a.sierra != b.sierra {
+                                let w = dbx::sierra_withdraw_gas_items(&a.sierra, &b.sierra);
+                                if w.is_empty() { "other".into() } else { format!("withdraw_gas@{}", w.join(",withdraw_gas@")) }
+                            } else {
+                                String::new()
+                            };
+                            Some(Violation { class: which.into(), detail: a.first_difference(b), at_op: i, items })
                         }
                     }
-                    (Err(p), Ok(_)) => Some(Violation { class: "panic-after-history".into(), detail: format!("incremental database panicked: {p}"), at_op: i }),
-                    (Ok(_), Err(p)) => Some(Violation { class: "fresh-panics-incremental-does-not".into(), detail: format!("fresh database panicked: {p}"), at_op: i }),
+                    (Err(p), Ok(_)) => Some(Violation { class: "panic-after-history".into(), detail: format!("incremental database panicked: {p}"), at_op: i, items: String::new() }),
+                    (Ok(_), Err(p)) => Some(Violation { class: "fresh-panics-incremental-does-not".into(), detail: format!("fresh database panicked: {p}"), at_op: i, items: String::new() }),
                     // Both panic on these contents: a front-end totality matter (C09), not C13.
                     (Err(_), Err(_)) => {
                         stats.counters.inc("state/both_panic_skipped");
@@ -290,15 +304,21 @@ pub fn run_history(project: &Project, ops: &[Op], scratch: &Path, use_memo: bool
                             if fresh_same {
                                 stats.counters.inc("syntax_invariant_fails_on_fresh_too_skipped");
                             } else {
-                                result = Some(Violation { class: "syntax-invariant".into(), detail: e, at_op: i });
+                                result = Some(Violation { class: "syntax-invariant".into(), detail: e, at_op: i, items: String::new() });
                                 break;
                             }
                         }
                     }
                 }
                 if let Some(v) = v {
-                    result = Some(v);
-                    break;
+                    // A difference explained by a listed finding is counted and the history goes on.
+                    if let Some(k) = KNOWN.get_or_init(KnownFindings::load).lookup("C13", &format!("{}|{}|{}", v.class, project.name, v.items)) {
+                        stats.counters.inc("checks_explained_by_listed_findings");
+                        stats.known_hits.insert(k.what.clone());
+                    } else {
+                        result = Some(v);
+                        break;
+                    }
                 }
             }
         }
@@ -585,7 +605,13 @@ pub fn run(opts: Opts, projects: Vec<Project>) -> i32 {
         std::fs::write(p, log.join("\n") + "\n").unwrap_or_else(|e| harness_error(&format!("log: {e}")));
     }
 
-    let known = KnownFindings::load();
+    let mut hits = BTreeSet::new();
+    for r in &all {
+        hits.extend(r.stats.known_hits.iter().cloned());
+    }
+    for h in &hits {
+        println!("KNOWN-FINDING: property=C13 {h}");
+    }
     let mut exit = simcore::EXIT_OK;
     let mut n_viol = 0;
     let mut reported = BTreeSet::new();
@@ -610,10 +636,6 @@ pub fn run(opts: Opts, projects: Vec<Project>) -> i32 {
         };
         let sig = signature(project, &min_ops, &v2);
         if !reported.insert(sig.clone()) {
-            continue;
-        }
-        if let Some(k) = known.lookup("C13", &sig) {
-            println!("KNOWN-FINDING: property=C13 {} ({})", k.what, k.signature);
             continue;
         }
         let _ = std::fs::create_dir_all(&replay_dir);
